@@ -103,6 +103,8 @@ func effConstruct(unit string, e *Eff) string {
 
 func ruleC05(c *Check) {
 	c.assume("A-SDK: ValidateBasic runs before the handler; a failing message leaves no state behind")
+	// the owner records that the authority checks consult exist for every binding, also for one that came in through genesis
+	c.genesisBindingSetter("C05.9")
 	ents := c.entries("C05.1")
 	// C05.1 exhaustiveness and signer fields
 	have := map[string]*Entry{}
